@@ -68,6 +68,11 @@ StepRules(st, self, types, cache) ==
          THEN {} ELSE {"conf"}))
   (* ---------------- C02 (manager level) ---------------- *)
   \cup (IF term => (T.same /\ T.ann = << >>) THEN {} ELSE {"C02.final"})
+  \cup (IF (term /\ T.hasPost) => (LET v == T.postView IN
+             /\ v.status = pre.status /\ v.ip = pre.ip /\ v.rpView = (pre.rp \/ pre.status = "Finalizing")
+             /\ v.queued = pre.queued /\ v.sent = pre.sent /\ v.received = pre.received /\ v.qIdx = pre.qIdx /\ v.sIdx = pre.sIdx /\ v.rIdx = pre.rIdx
+             /\ v.limit = pre.limit /\ v.reqFin = pre.reqFin /\ v.vouchers = pre.vouchers /\ v.results = pre.results)
+        THEN {} ELSE {"C02.viewFinal"})       \* what a query of a terminal channel returns is still what its record says
   \cup (IF (term /\ k = "Restart") => (st.ret = "nil" /\ st.net = << >> /\ st.tr = << >> /\ st.val = << >>) THEN {} ELSE {"C02.restartNoop"})
   \cup (IF (term /\ isReqStim /\ m.kind = "Restart") => (~reply.accepted /\ ~applied("Restart")) THEN {} ELSE {"C02.restartRefused"})
   \cup (IF (term /\ k = "Close") => st.ret = "nil" THEN {} ELSE {"C02.closeOk"})
